@@ -62,6 +62,13 @@ CHECKS["C07"] = dict(
     note="Trusted: Coq kernel (vm_compute only in witness lemmas); hand model ExecState.v; the translator is abstract and assumed to depend on the name counter only by renaming (explicit premise); completeness of the state inventory is tested, not proved - a new global in /repo is caught only by the differential histories; extraction, OCaml driver, S-expression codec; the correspondence reads (never writes) the registries and executor attributes; python_on_whales is stubbed to import DockerImageSpecification.",
     technique="Coq proof (state-machine invariant by case analysis on the raising stage, lifted over fold_left) + differential histories in fresh interpreters",
 )
+CHECKS["C05"] = dict(
+    category="proof",
+    text="Coq-defined static analysis event_local of the emitted per-event program (no expression reads a class member; abstract interpretation of member levels clean/set/guarded-by-a-local-flag/unknown with joins and loop invariants; every booked column set before each Fill, every vector member cleared on every non-faulting path) with a soundness theorem over ALL events, member states left by earlier events and event lists: run_job equals the per-event job (rows per event, abort position and fault), hence permutation and split invariance (event_local_sound, C05_job_per_event, C05_rows_per_event, C05_abort_prefix, C05_permutation, C05_split; refutations for a missing clear, a column assigned only inside a loop, and the known terminal-after-SelectMany shape). The extracted checker runs on the program the implementation emits for every generated query on all three backends, next to a reference-free search (one job vs. each event alone, permutations, doubled list, split) that yields the concrete failing event list.",
+    design_ref="5.5",
+    note="Proved: quantifiers over events, histories, event lists. Sampled: the quantifier over queries (translation validation of the emitted program; counts and feature histogram in the evidence). Trusted: Coq kernel; Cpp/Exec.v as the model of the emitted C++ subset; the fail-closed parser of the emitted text (re-print compared with the emitted lines); user C++ blocks and math functions as functions of their arguments; extraction and the OCaml driver.",
+    technique="verified static checker (relational two-run proof by mutual induction) + translation validation + differential multi-context execution",
+)
 NOT_YET = {}
 
 def main():
